@@ -29,3 +29,16 @@ func VerifC08ToJSONParse(input []byte) ([]*lexing.Error, int) {
 	parseValue(p)
 	return p.Errs(), len(rec.Tokens())
 }
+
+// VerifC08TokensPastEOF is VerifC08Tokens followed by extra further Token()
+// calls on the same tokener: the stream after EOF was returned.
+func VerifC08TokensPastEOF(input []byte, extra int) (
+	toks, after []*lexing.Token, errs []*lexing.Error,
+) {
+	tk := tokener("", bytes.NewReader(input))
+	toks, _ = lexing.Tokens(tk)
+	for i := 0; i < extra; i++ {
+		after = append(after, tk.Token())
+	}
+	return toks, after, tk.Errs()
+}
